@@ -103,21 +103,35 @@ fn main() {
             for cached in [false, true] {
                 for nodes in [1usize, 2] {
                     let (mut depth, alpha) = if thorough { (if nodes == 1 { 6 } else { 5 }, if nodes == 1 { 2 } else { 1 }) } else if nodes == 1 { (4, 1) } else { (3, 0) };
-                    if !thorough && ext && cached {
+                    if !thorough && ((ext && cached) || (!ext && late && nodes == 1)) {
                         depth -= 1;
                     }
-                    runs.push((Cfg { ext, cached, nodes, late, alpha, mixed: false, ts: 0 }, depth));
+                    if !thorough && ext && late && nodes == 1 {
+                        // the largest quick space (2840 transitions at depth 4); depth 4 is covered by the thorough tier
+                        depth -= 1;
+                    }
+                    // the entry-point alphabet on two nodes: one configuration at depth 4 (it triples the 2-node spaces)
+                    let entry = thorough && (nodes == 1 || (ext && !cached && !late));
+                    if thorough && nodes == 2 && entry {
+                        depth = 4;
+                    }
+                    runs.push((Cfg { ext, cached, nodes, late, alpha, mixed: false, ts: 0, entry }, depth));
                 }
             }
         }
     }
     // timestamps: {session generator} x {explicit timestamp on the statement}; the all-off combination is every run above
     for ts in [3u8, 1, 2] {
-        runs.push((Cfg { ext: true, cached: false, nodes: 1, late: false, alpha: if thorough { 2 } else { 1 }, mixed: false, ts }, if thorough { 5 } else { 3 }));
+        runs.push((Cfg { ext: true, cached: false, nodes: 1, late: false, alpha: if thorough { 2 } else { 1 }, mixed: false, ts, entry: thorough }, if thorough { 5 } else { 2 }));
+    }
+    // other entry points / lifecycles (quick: two dedicated shallow runs; thorough: part of every run)
+    if !thorough {
+        runs.push((Cfg { ext: true, cached: false, nodes: 1, late: false, alpha: 1, mixed: false, ts: 0, entry: true }, 3));
+        runs.push((Cfg { ext: false, cached: true, nodes: 1, late: false, alpha: 1, mixed: false, ts: 0, entry: true }, 3));
     }
     // mixed cluster: node 0 with the metadata-id extension, node 1 without; the statement's metadata is shared by both
     for cached in [true, false] {
-        runs.push((Cfg { ext: false, cached, nodes: 2, late: false, alpha: if thorough { 1 } else { 0 }, mixed: true, ts: if cached { 0 } else { 3 } }, if thorough { 5 } else { 3 }));
+        runs.push((Cfg { ext: false, cached, nodes: 2, late: false, alpha: if thorough { 1 } else { 0 }, mixed: true, ts: if cached { 0 } else { 3 }, entry: false }, if thorough { 5 } else { 3 }));
     }
     // cheap configurations first, so that a wall cap (reported, never silent) can only cut the tail
     runs.sort_by_key(|(c, _)| c.nodes);
@@ -171,7 +185,7 @@ fn main() {
     }
     // E-BFS audit (thorough): the same space explored with 3 and with all worker threads must give identical counts
     if thorough && only.is_none() {
-        let cfg = Cfg { ext: true, cached: false, nodes: 1, late: true, alpha: 2, mixed: false, ts: 0 };
+        let cfg = Cfg { ext: true, cached: false, nodes: 1, late: true, alpha: 2, mixed: false, ts: 0, entry: true };
         let m = M { cfg, max_version: 4, r: &r };
         let a = bfs(&m, &BfsOpts { max_depth: 4, max_states: 2_000_000, wall: Duration::from_secs(600), jobs: 3, max_violations: 1 });
         let b = bfs(&m, &BfsOpts { max_depth: 4, max_states: 2_000_000, wall: Duration::from_secs(600), jobs, max_violations: 1 });
